@@ -688,3 +688,147 @@ Proof.
   split; [intros; now apply Inv_get_user_state|]. split; [intros; now apply Inv_get_user_data|].
   split; [intros; now apply Inv_get_user_state_versions|]. intros; now apply Inv_tombstone.
 Qed.
+
+(* ------------------------------------------------------------------ C10: a failed publish, storage side *)
+
+(* the operations a publish performs between begin_transaction and commit / rollback, with the
+   environment's choice for every database call *)
+Inductive txn_op :=
+| OSet (r : record) (f : bool)
+| OBatchSet (rs : list record) (f : bool)
+| OGet (k : key) (f : bool)
+| OBatchGet (ks : list key) (f : bool)
+| OUserState (u : N) (fl : flag) (f : bool)
+| OUserData (u : N) (f : bool)
+| OUserVersions (us : list N) (fl : flag) (f : bool)
+| OEvict (ks : list key).
+
+Definition run_op (s : mstate) (o : txn_op) : mstate :=
+  match o with
+  | OSet r f => fst (set_record s r f)
+  | OBatchSet rs f => fst (batch_set s rs f)
+  | OGet k f => fst (get_record s k f)
+  | OBatchGet ks f => fst (batch_get s ks f)
+  | OUserState u fl f => fst (get_user_state s u fl f)
+  | OUserData u f => fst (get_user_data s u f)
+  | OUserVersions us fl f => fst (get_user_state_versions s us fl f)
+  | OEvict ks => evict s ks
+  end.
+
+Lemma run_op_in_txn s o : m_active s = true -> m_db (run_op s o) = m_db s /\ m_active (run_op s o) = true.
+Proof.
+  intros Ha. destruct o; simpl.
+  - unfold set_record. rewrite Ha. auto.
+  - unfold batch_set. destruct rs; [auto|]. rewrite Ha. auto.
+  - unfold get_record. rewrite Ha. destruct (kget (m_mods s) k); [auto|]. destruct (cache_get _ _); [auto|].
+    destruct f; [unfold tick; auto|]. destruct (kget (m_db s) k); unfold tick; auto.
+  - unfold batch_get. destruct ks; [auto|].
+    match goal with |- context [match ?m with [] => _ | _ => _ end] => destruct m end; [auto|].
+    destruct f; unfold tick; auto.
+  - unfold get_user_state. destruct f; [unfold tick; auto|].
+    match goal with |- context [match ?x with Some _ => _ | None => _ end] => destruct x end; [unfold tick; auto|].
+    destruct (db_user_state _ _ _); unfold tick; auto.
+  - unfold get_user_data, tick. auto.
+  - unfold get_user_state_versions, tick. auto.
+  - unfold evict. auto.
+Qed.
+
+Lemma run_op_Inv s o : Inv s -> Inv (run_op s o).
+Proof.
+  intros H. destruct o; simpl; auto using Inv_set, Inv_batch_set, Inv_get, Inv_batch_get, Inv_get_user_state,
+    Inv_get_user_data, Inv_get_user_state_versions, Inv_evict.
+Qed.
+
+Lemma run_ops_in_txn ops : forall s, m_active s = true -> Inv s ->
+  m_db (fold_left run_op ops s) = m_db s /\ m_active (fold_left run_op ops s) = true /\ Inv (fold_left run_op ops s).
+Proof.
+  induction ops as [|o ops IH]; intros s Ha HI; simpl; [auto|].
+  destruct (run_op_in_txn s o Ha) as [Hd Ha']. destruct (IH (run_op s o) Ha' (run_op_Inv s o HI)) as (I1 & I2 & I3).
+  rewrite I1, Hd. auto.
+Qed.
+
+(* C10: begin; any program of storage operations with any database call rejected and any cache
+   eviction; then rollback, or a commit the database rejects, or a commit refused for lack of an
+   epoch record: the database is exactly as before, no transaction is open, the log is empty and the
+   cache still agrees with the database - so every later read returns what it returned before *)
+Theorem failed_publish_restores s ops s' :
+  Inv s -> m_active s = false ->
+  let s1 := fold_left run_op ops (fst (begin_transaction s)) in
+  (s' = fst (rollback_transaction s1) \/ s' = fst (commit_transaction s1 true) \/
+   (exists e, commit_transaction s1 false = (s', Err e))) ->
+  m_db s' = m_db s /\ m_active s' = false /\ m_mods s' = [] /\ Inv s'.
+Proof.
+  intros HI Ha s1 Hend.
+  destruct (run_ops_in_txn ops (fst (begin_transaction s)) eq_refl (Inv_begin s HI)) as (D1 & A1 & I1).
+  fold s1 in D1, A1, I1. cbn [begin_transaction fst m_db] in D1.
+  destruct Hend as [->|[->|[e He]]].
+  - pose proof (Inv_rollback s1 I1) as H. rewrite rollback_spec in H by exact A1. cbn [fst] in H.
+    rewrite rollback_spec by exact A1. cbn [fst m_db m_active m_mods].
+    split; [exact D1|]. split; [reflexivity|]. split; [reflexivity|exact H].
+  - split; [rewrite failed_commit_keeps_db; exact D1|]. split; [|split; [|apply Inv_commit; exact I1]].
+    + unfold commit_transaction. rewrite A1. cbn [negb]. destruct (sort_by_priority _) as [|r0 rs] eqn:E; [reflexivity|].
+      rewrite <- E. destruct (last _ _); reflexivity.
+    + unfold commit_transaction. rewrite A1. cbn [negb]. destruct (sort_by_priority _) as [|r0 rs] eqn:E; [reflexivity|].
+      rewrite <- E. destruct (last _ _); reflexivity.
+  - pose proof (Inv_commit s1 false I1) as HI'. rewrite He in HI'. cbn [fst] in HI'.
+    unfold commit_transaction in He. rewrite A1 in He. cbn [negb] in He.
+    destruct (sort_by_priority _) as [|r0 rs] eqn:E; [discriminate|]. rewrite <- E in He.
+    destruct (last _ _); try discriminate; injection He as <- _; cbn [m_db m_active m_mods];
+      (split; [exact D1|]; split; [reflexivity|]; split; [reflexivity|exact HI']).
+Qed.
+
+(* ------------------------------------------------------------------ C20: tombstoning, storage side *)
+
+Definition tombstoned (u c : N) (r : record) : record :=
+  match r with
+  | RVal v => if (vs_user v =? u) && (vs_epoch v <=? c) && negb (vs_value v =? 0)
+              then RVal (VS (vs_user v) (vs_epoch v) (vs_version v) 0) else r
+  | _ => r
+  end.
+
+(* C20 frame: outside a transaction a successful tombstone rewrites only the value field of the
+   user's value states with epoch <= c; node records, the epoch record and all other value states
+   are exactly as before, and no key appears or disappears *)
+Definition tomb_records (states : list vstate) (c : N) : list record :=
+  flat_map (fun v => if (vs_epoch v <=? c) && negb (vs_value v =? 0)
+                     then [RVal (VS (vs_user v) (vs_epoch v) (vs_version v) 0)] else []) states.
+
+Lemma tombstone_unfold s u c : m_active s = false ->
+  m_db (fst (tombstone s u c false false)) = kput_all (m_db s) (tomb_records (user_states (m_db s) u) c).
+Proof.
+  intros Ha. unfold tombstone, get_user_data. rewrite Ha.
+  destruct (user_states (m_db s) u) as [|d0 dl] eqn:Ed; cbv beta iota zeta; cbn [fst snd].
+  - reflexivity.
+  - fold (tomb_records (d0 :: dl) c). unfold batch_set.
+    destruct (tomb_records (d0 :: dl) c) as [|r0 rs]; [reflexivity|]. unfold tick. cbn [m_active]. rewrite Ha. reflexivity.
+Qed.
+
+Theorem tombstone_frame s u c : Inv s -> m_active s = false ->
+  forall k, kget (m_db (fst (tombstone s u c false false))) k =
+            match kget (m_db s) k with Some r => Some (tombstoned u c r) | None => None end.
+Proof.
+  intros HI Ha k. pose proof HI as (_ & K1 & N1 & _ & _). rewrite tombstone_unfold by exact Ha.
+  set (dbl := user_states (m_db s) u).
+  assert (Hdbl : forall v, In v dbl <-> kget (m_db s) (KVal u (vs_epoch v)) = Some (RVal v) /\ vs_user v = u).
+  { intros v. apply in_user_states_kget; assumption. }
+  assert (Hnew : forall r, In r (tomb_records dbl c) <->
+    exists v, In v dbl /\ (vs_epoch v <=? c) && negb (vs_value v =? 0) = true /\ r = RVal (VS (vs_user v) (vs_epoch v) (vs_version v) 0)).
+  { intros r. unfold tomb_records. rewrite in_flat_map. split.
+    - intros (v & Hv & Hr). exists v. split; [exact Hv|]. destruct ((vs_epoch v <=? c) && negb (vs_value v =? 0)); [|destruct Hr].
+      destruct Hr as [<-|[]]. auto.
+    - intros (v & Hv & Hc & ->). exists v. split; [exact Hv|]. rewrite Hc. now left. }
+  rewrite kget_kput_all.
+  destruct (find (fun r => key_eqb k (key_of r)) (rev (tomb_records dbl c))) as [r|] eqn:F.
+  - apply find_some in F. destruct F as [Hin Hk]. apply key_eqb_eq in Hk. apply in_rev in Hin.
+    apply Hnew in Hin. destruct Hin as (v & Hv & Hc & ->). simpl in Hk. subst k.
+    apply Hdbl in Hv. destruct Hv as [Hg Hu]. rewrite Hu, Hg. f_equal. simpl. rewrite Hu, N.eqb_refl. cbn [andb].
+    apply andb_true_iff in Hc. destruct Hc as [C1 C2]. rewrite C1, C2. reflexivity.
+  - destruct (kget (m_db s) k) as [r|] eqn:G; [|reflexivity]. f_equal. destruct r as [| |v]; try reflexivity. simpl.
+    destruct ((vs_user v =? u) && (vs_epoch v <=? c) && negb (vs_value v =? 0)) eqn:C; [|reflexivity]. exfalso.
+    apply andb_true_iff in C. destruct C as [C C3]. apply andb_true_iff in C. destruct C as [C1 C2]. apply N.eqb_eq in C1.
+    pose proof (K1 _ _ G) as Hk. simpl in Hk. subst k.
+    assert (Hv : In v dbl) by (apply Hdbl; rewrite <- C1; auto).
+    assert (Hr : In (RVal (VS (vs_user v) (vs_epoch v) (vs_version v) 0)) (rev (tomb_records dbl c))).
+    { apply -> in_rev. apply Hnew. exists v. rewrite C2, C3. auto. }
+    apply (find_none _ _ F) in Hr. cbn [key_of vs_user vs_epoch] in Hr. rewrite key_eqb_refl in Hr. discriminate.
+Qed.
